@@ -19,7 +19,7 @@ G = lambda n: ("G", n)
 # ---------------------------------------------------------------- generator
 
 class Gen:
-    def __init__(self, rng, methods=True, globals_=True, one_param=False, max_funcs=5, max_pkgs=3, deep_conds=True):
+    def __init__(self, rng, methods=True, globals_=True, one_param=True, max_funcs=5, max_pkgs=3, deep_conds=True):
         self.rng, self.methods, self.globals_, self.one_param = rng, methods, globals_, one_param
         self.max_funcs, self.max_pkgs, self.deep_conds = max_funcs, max_pkgs, deep_conds
 
@@ -36,16 +36,50 @@ class Gen:
             else:
                 nparams = r.choice([0, 2, 2, 3] if not self.one_param else [0, 1, 1, 2, 3])
                 if method:
-                    nparams = r.choice([1, 3] if not self.one_param else [1, 2, 3])
+                    nparams = r.choice([1, 3])      # receiver + one parameter would be a contract candidate about the parameter: outside the modelled fragment
             funcs.append(dict(nparams=nparams, pkg=pkg, method=method, body=("skip",)))
         ngl = r.choice([0, 0, 1, 2]) if self.globals_ else 0
         self.p = dict(funcs=funcs, ginit=[r.random() < 0.5 for _ in range(ngl)], gpkg=[r.randrange(npk) for _ in range(ngl)], npkgs=npk)
         self.next_d = 1
+        self.next_cs = 1
         for f in range(nf):
             self.f = f
             self.nloc = funcs[f]["nparams"] + r.randint(1, 3)
-            funcs[f]["body"] = self.block(r.randint(2, 6), 0, True)
+            if funcs[f]["nparams"] == 1 and not funcs[f]["method"] and r.random() < 0.7:
+                funcs[f]["body"] = self.contract_body()
+            else:
+                funcs[f]["body"] = self.block(r.randint(2, 6), 0, True)
         return self.p
+
+    def noret_block(self, n):
+        out = []
+        for _ in range(n):
+            s = self.stmt(1, False)
+            out.append(s)
+        return M.seq(out)
+
+    def contract_body(self):
+        """bodies for which a nonnil->nonnil contract is likely (or narrowly missed)"""
+        r = self.rng
+        p0 = L(0)
+        good = lambda: r.choice(["new", p0, p0])
+        any_ = lambda: r.choice(["nil", "new", p0, self.var()])
+        shape = r.randrange(5)
+        if shape == 0:
+            return M.seq([("if", ("nonnil", p0), M.seq([self.noret_block(r.randint(0, 2)), ("return", good())]), ("skip",)),
+                          self.noret_block(r.randint(0, 2)), ("return", any_())])
+        if shape == 1:
+            return M.seq([("if", ("not", ("nonnil", p0)), M.seq([self.noret_block(r.randint(0, 1)), ("return", any_())]), ("skip",)),
+                          self.noret_block(r.randint(0, 2)), ("return", good() if r.random() < 0.85 else any_())])
+        if shape == 2:
+            return M.seq([self.noret_block(r.randint(0, 2)), ("return", p0 if r.random() < 0.7 else any_())])
+        if shape == 3:
+            return M.seq([("if", ("opaque",), ("return", "new" if r.random() < 0.8 else any_()), ("skip",)),
+                          ("if", ("not", ("nonnil", p0)), ("return", "nil"), ("skip",)),
+                          ("return", p0)])
+        x = L(1)
+        return M.seq([("assign", x, p0), ("if", ("and", ("nonnil", p0), ("opaque",)), ("assign", x, "new"), ("skip",)),
+                      ("if", ("nonnil", p0), ("return", x if r.random() < 0.7 else good()), ("skip",)), ("return", any_())])
 
     # variables visible in the current function
     def vars(self):
@@ -64,6 +98,11 @@ class Gen:
         if r < 0.45:
             return "new"
         return self.var()
+
+    def cs_id(self):
+        c = self.next_cs
+        self.next_cs += 1
+        return c
 
     def deref_id(self):
         d = self.next_d
@@ -111,9 +150,9 @@ class Gen:
             if self.p["funcs"][h]["method"] and hargs[0] == "nil":
                 hargs[0] = self.var()
             args = [a if not (isinstance(a, tuple) and a[0] == "G") else "new" for a in args]
-            args[i] = ("nest", h, hargs)
+            args[i] = ("nest", h, hargs, self.cs_id())
         x = self.var() if self.rng.random() < 0.7 else None
-        return ("call", x, g, args)
+        return ("call", x, g, args, self.cs_id())
 
     def stmt(self, depth, tail):
         r = self.rng.random()
@@ -262,8 +301,8 @@ func main() {
 
 
 def write_module(root, progs, styles):
-    """progs: {name: program}; returns {name: {deref id: (file, line, col)}}"""
-    pos = {}
+    """progs: {name: program}; returns ({name: {deref id: (file, line, col)}}, {name: {call site: (file, line, col call, col arg)}})"""
+    pos, cpos = {}, {}
     os.makedirs(os.path.join(root, "rt"), exist_ok=True)
     open(os.path.join(root, "rt", "rt.go"), "w").write(M.RT_GO)
     open(os.path.join(root, "go.mod"), "w").write("module %s\n\ngo 1.22\n" % M.MODULE)
@@ -275,6 +314,7 @@ def write_module(root, progs, styles):
             os.makedirs(os.path.dirname(fn), exist_ok=True)
             open(fn, "w").write(txt)
         pos[name] = dict(pr.pos)
+        cpos[name] = dict(pr.cpos)
         k = p["funcs"][0]["pkg"]
         for j in range(p["npkgs"]):
             imports.append('\t%s "%s"' % (pr.pkgname(j), pr.pkgpath(j)))
@@ -282,7 +322,7 @@ def write_module(root, progs, styles):
         entries.append('\t{"%s", func() { %s; %s.F0() }},' % (name, resets, pr.pkgname(k)))
     os.makedirs(os.path.join(root, "cmd", "run"), exist_ok=True)
     open(os.path.join(root, "cmd", "run", "main.go"), "w").write(MAIN_TMPL % dict(imports="\n".join(imports), entries="\n".join(entries), nb=NB))
-    return pos
+    return pos, cpos
 
 
 def run_truth(root):
@@ -321,18 +361,27 @@ def run_real(root, flags=None):
 def enc(site):
     k = site[0]
     if k == "param":
-        return 3 * (site[1] * 64 + site[2])
+        return 5 * (site[1] * 64 + site[2])
     if k == "result":
-        return 3 * site[1] + 1
-    return 3 * site[1] + 2
+        return 5 * site[1] + 1
+    if k == "global":
+        return 5 * site[1] + 2
+    if k == "callparam":
+        return 5 * (site[2] * 64 + site[1]) + 3
+    return 5 * (site[2] * 64 + site[1]) + 4
 
 
 def dec(n):
-    if n % 3 == 0:
-        return ("param", (n // 3) // 64, (n // 3) % 64)
-    if n % 3 == 1:
-        return ("result", n // 3)
-    return ("global", n // 3)
+    r, q = n % 5, n // 5
+    if r == 0:
+        return ("param", q // 64, q % 64)
+    if r == 1:
+        return ("result", q)
+    if r == 2:
+        return ("global", q)
+    if r == 3:
+        return ("callparam", q % 64, q // 64)
+    return ("callresult", q % 64, q // 64)
 
 
 def parse_trigs(txt):
@@ -342,55 +391,117 @@ def parse_trigs(txt):
         if not t:
             continue
         a = [int(x) for x in t.split(",")]
-        out.append(tuple(a))  # (id, pk, p, ck, c)
+        out.append(tuple(a))  # (id, pk, p, ck, c, ctrl)
     return out
 
 
-def run_model(progs):
-    lines = ["NB %d %s" % (NB, M.prog_line(p)) for p in progs.values()]
+def run_model(progs, ctrs=None):
+    ctrs = ctrs or {}
+    lines = ["NB %d %s" % (NB, M.prog_line(p, ctrs.get(n, ()))) for n, p in progs.items()]
     rc, out, err = eg.run_lines("modelrun", "minigo", lines)
     if rc != 0 or len(out) != len(lines):
         return None, "modelrun minigo failed rc=%s (%d/%d lines): %s" % (rc, len(out), len(lines), err[-1500:])
     res = {}
     for name, l in zip(progs, out):
-        head, decl, funcs, runs = [x.strip() for x in l.split("|")]
+        head, decl, funcs, dups, runs = [x.strip() for x in l.split("|")]
         flags = dict(kv.split("=") for kv in head.split())
-        res[name] = dict(wf=flags["wf"] == "1", an=flags["an"] == "1", gsafe=flags["gsafe"] == "1",
-                         decl=parse_trigs(decl), funcs=[parse_trigs(x) for x in funcs.split("/")] if flags["an"] == "1" else [],
+        an = flags["an"] == "1"
+        res[name] = dict(wf=flags["wf"] == "1", an=an, gsafe=flags["gsafe"] == "1", clocal=flags["clocal"] == "1",
+                         decl=parse_trigs(decl), funcs=[parse_trigs(x) for x in funcs.split("/")] if an else [],
+                         dups=[parse_trigs(x) for x in dups.split("/")] if an else [],
                          runs=[int(x) for x in runs.split(",")])
     return res, None
 
 
-def site_pkg(p, s):
+def site_pkg(p, s, cspkg=None):
     if s[0] in ("param", "result"):
         return p["funcs"][s[1]]["pkg"]
+    if s[0] in ("callparam", "callresult"):
+        return (cspkg or {}).get(s[2], p["funcs"][s[1]]["pkg"])
     return p["gpkg"][s[1]]
+
+
+def callsite_pkgs(p):
+    """call site id -> package of the calling function"""
+    out = {}
+    q = M.expand(p)
+
+    def go(s, k):
+        kind = s[0]
+        if kind == "seq":
+            go(s[1], k); go(s[2], k)
+        elif kind == "call":
+            out[s[4]] = k
+        elif kind == "if":
+            go(s[2], k); go(s[3], k)
+        elif kind == "while":
+            go(s[2], k)
+
+    for fd in q["funcs"]:
+        go(fd["body"], fd["pkg"])
+    return out
+
+
+def stable_groups(p):
+    """calls whose arguments are all literals are one `stable expression` per (calling function, callee) for the
+    implementation: their call-site sites are interchangeable (same constraints); map each to the group's first"""
+    rep = {}
+    q = M.expand(p)
+
+    def go(s, f, seen):
+        kind = s[0]
+        if kind == "seq":
+            go(s[1], f, seen); go(s[2], f, seen)
+        elif kind == "call":
+            if all(a == "nil" for a in s[3]):
+                key = (f, s[2], len(s[3]))
+                seen.setdefault(key, s[4])
+                rep[s[4]] = min(seen[key], s[4])
+                seen[key] = rep[s[4]]
+        elif kind == "if":
+            go(s[2], f, seen); go(s[3], f, seen)
+        elif kind == "while":
+            go(s[2], f, seen)
+
+    for f, fd in enumerate(q["funcs"]):
+        go(fd["body"], f, {})
+    return rep
+
+
+def canon_triggers(ts, rep):
+    def cs(site):
+        if isinstance(site, tuple) and site and site[0] in ("callparam", "callresult"):
+            return (site[0], site[1], rep.get(site[2], site[2]))
+        return site
+    return set((cs(a), cs(b), cs(c)) for (a, b, c) in ts)
 
 
 def scenario_of(p, m):
     """engine scenario (packages in dependency order, all sites exported) from the model's triggers"""
     npk = p["npkgs"]
     per = [[] for _ in range(npk)]
-    for g, t in zip(range(len(p["ginit"])), []):
-        pass
+    cspkg = callsite_pkgs(p)
     # declaration triggers go to the package of the variable
     for t in m["decl"]:
         per[site_pkg(p, dec(t[4]))].append(t)
     for f, ts in enumerate(m["funcs"]):
         per[p["funcs"][f]["pkg"]] += ts
+    for f, ts in enumerate(m["dups"]):
+        per[p["funcs"][f]["pkg"]] += ts
     sites = {}
     for ts in per:
-        for (_, pk, pp, ck, cc) in ts:
+        for (_, pk, pp, ck, cc, ctrl) in ts:
             for kk, ss in ((pk, pp), (ck, cc)):
                 if kk == 2:
                     sites[ss] = dec(ss)
-    site_list = [(n, True, s[0] == "param", site_pkg(p, s)) for n, s in sorted(sites.items())]
+            if ctrl >= 0:
+                sites[ctrl] = dec(ctrl)
+    site_list = [(n, True, s[0] in ("param", "callparam"), site_pkg(p, s, cspkg)) for n, s in sorted(sites.items())]
     pkgs = []
     tid = 1000
-    idmap = {}
     for k in range(npk):
         trigs = []
-        for (d, pk, pp, ck, cc) in per[k]:
+        for (d, pk, pp, ck, cc, ctrl) in per[k]:
             if pk == 1:
                 continue          # a never-nil producer constrains nothing
             if d == 0:
@@ -398,7 +509,7 @@ def scenario_of(p, m):
                 use = tid
             else:
                 use = d
-            trigs.append((use, {0: eg.A, 1: eg.N, 2: eg.C}[pk], {0: eg.A, 2: eg.C}[ck], pp, cc, -1))
+            trigs.append((use, {0: eg.A, 1: eg.N, 2: eg.C}[pk], {0: eg.A, 2: eg.C}[ck], pp, cc, ctrl))
         pkgs.append(dict(imports=list(range(k)), annots=[], trigs=trigs))
     return eg.Scenario(site_list, pkgs)
 
@@ -421,8 +532,8 @@ def model_flagged(progs, model):
         mm = re.match(r"\{flow=(\d);N\[(.*?)\];M\[(.*?)\]\}", l.strip())
         nil = set(int(x) for x in mm.group(2).split(",") if x)
         fl = set()
-        for ts in [model[n]["decl"]] + model[n]["funcs"]:
-            for (d, pk, pp, ck, cc) in ts:
+        for ts in [model[n]["decl"]] + model[n]["funcs"] + model[n]["dups"]:
+            for (d, pk, pp, ck, cc, ctrl) in ts:
                 if ck == 0 and (pk == 0 or (pk == 2 and pp in nil)):
                     fl.add(d)
         res[n] = (fl, mm.group(1) == "1")
@@ -462,27 +573,45 @@ def sink_of(c):
 # ---------------------------------------------------------------- real side, abstracted
 
 SITE_RE = [
-    (re.compile(r"ParamAnnotationKey:Param (\d+): '.*' of Function ([FM])(\d+)$"), lambda m: ("param", int(m.group(3)), int(m.group(1)) + (1 if m.group(2) == "M" else 0))),
-    (re.compile(r"RecvAnnotationKey:Receiver of Method M(\d+)$"), lambda m: ("param", int(m.group(1)), 0)),
-    (re.compile(r"RetAnnotationKey:Result 0 of (?:Function|Method) [FM](\d+)$"), lambda m: ("result", int(m.group(1)))),
-    (re.compile(r"GlobalVarAnnotationKey:Global Variable G(\d+)$"), lambda m: ("global", int(m.group(1)))),
+    (re.compile(r"ParamAnnotationKey:Param (\d+): '.*' of Function ([FM])(\d+)$"), lambda m, cp: ("param", int(m.group(3)), int(m.group(1)) + (1 if m.group(2) == "M" else 0))),
+    (re.compile(r"RecvAnnotationKey:Receiver of Method M(\d+)$"), lambda m, cp: ("param", int(m.group(1)), 0)),
+    (re.compile(r"RetAnnotationKey:Result 0 of (?:Function|Method) [FM](\d+)$"), lambda m, cp: ("result", int(m.group(1)))),
+    (re.compile(r"GlobalVarAnnotationKey:Global Variable G(\d+)$"), lambda m, cp: ("global", int(m.group(1)))),
+    (re.compile(r"CallSiteParamAnnotationKey:Param 0: '.*' of Function F(\d+) at Location (\S+):(\d+):(\d+)$"),
+     lambda m, cp: ("callparam", int(m.group(1)), cp.get(("arg", int(m.group(1)), m.group(2), int(m.group(3)), int(m.group(4))), "?"))),
+    (re.compile(r"CallSiteRetAnnotationKey:Result 0 of Function F(\d+) at Location (\S+):(\d+):(\d+)$"),
+     lambda m, cp: ("callresult", int(m.group(1)), cp.get(("call", int(m.group(1)), m.group(2), int(m.group(3)), int(m.group(4))), "?"))),
 ]
 
 
-def parse_site(s):
+def parse_site(s, cp):
     for rx, f in SITE_RE:
         m = rx.search(s)
         if m:
-            return f(m)
+            r = f(m, cp)
+            if "?" in r:
+                return ("?", s)
+            return r
     return ("?", s)
 
 
-def real_triggers(res, name, pos):
-    """abstract triggers of program `name`: set of (producer, consumer) with producer in {'nil', site},
-    consumer in {('deref', id), site}; never-nil producers are dropped"""
+def call_index(cpos):
+    """locations as NilAway prints them (last directory + file name) -> call site id"""
+    idx = {}
+    for cs, (f, ln, cc, ca, callee) in cpos.items():
+        short = "/".join(f.split("/")[-2:])
+        idx[("call", callee, short, ln, cc)] = cs
+        idx[("arg", callee, short, ln, ca)] = cs
+    return idx
+
+
+def real_triggers(res, name, pos, cpos=None):
+    """abstract triggers of program `name`: set of (producer, consumer, controller) with producer in {'nil', site},
+    consumer in {('deref', id), site}, controller a site or None; never-nil producers are dropped"""
     rev = {}
     for d, (f, ln, col) in pos.items():
         rev[(f, ln, col)] = d
+    cp = call_index(cpos or {})
     out, odd = set(), []
     for t in res.get("triggers") or []:
         parts = t["pkg"].split("/")
@@ -493,7 +622,7 @@ def real_triggers(res, name, pos):
         if t["pk"] == "1":
             prod = "nil"
         elif t["pk"] == "2":
-            prod = parse_site(t["ps"])
+            prod = parse_site(t["ps"], cp)
         else:
             odd.append(t); continue
         if t["ck"] == "1":
@@ -502,24 +631,38 @@ def real_triggers(res, name, pos):
                 odd.append(t); continue
             cons = ("deref", d)
         elif t["ck"] == "2":
-            cons = parse_site(t["cs"])
+            cons = parse_site(t["cs"], cp)
         else:
             odd.append(t); continue
-        if t["ctrl"] or prod[0] == "?" or cons[0] == "?":
+        ctrl = parse_site(t["ctrl"], cp) if t["ctrl"] else None
+        if prod[0] == "?" or cons[0] == "?" or (ctrl is not None and ctrl[0] == "?"):
             odd.append(t); continue
-        out.add((prod, cons))
+        out.add((prod, cons, ctrl))
     return out, odd
+
+
+def real_contracts(res, name):
+    """function indices of program `name` for which the real tool has (inferred) a nonnil->nonnil contract"""
+    out = set()
+    for c in res.get("contracts") or []:
+        parts = c["pkg"].split("/")
+        if len(parts) < 4 or parts[2] != name:
+            continue
+        m = re.search(r"\.F(\d+)$", c["func"])
+        if m and "[{[nonnil] [nonnil]}]" in c["text"]:
+            out.add(int(m.group(1)))
+    return out
 
 
 def model_triggers(m):
     out = set()
-    for ts in [m["decl"]] + m["funcs"]:
-        for (d, pk, pp, ck, cc) in ts:
+    for ts in [m["decl"]] + m["funcs"] + m["dups"]:
+        for (d, pk, pp, ck, cc, ctrl) in ts:
             if pk == 1:
                 continue
             prod = "nil" if pk == 0 else dec(pp)
             cons = ("deref", d) if ck == 0 else dec(cc)
-            out.add((prod, cons))
+            out.add((prod, cons, dec(ctrl) if ctrl >= 0 else None))
     return out
 
 
@@ -555,6 +698,6 @@ def truth_panics(truth, name, pos):
     return out
 
 
-def show(p, name):
+def show(p, name, ctr=()):
     pr = M.Printer(p, name, None)
-    return "".join("// %s\n%s" % (k, v) for k, v in pr.files().items()) + "model-line: " + M.prog_line(p) + "\n"
+    return "".join("// %s\n%s" % (k, v) for k, v in pr.files().items()) + "model-line: " + M.prog_line(p, ctr) + "\n"
